@@ -65,6 +65,14 @@ def make_spec(st, idx, tier):
             o["row"] = dict(o["row"], results_dem=o["row"]["results_dem"] - kk, results_gop=o["row"]["results_gop"] + kk)
             o["entry_error"] = True
             n_bad += 1
+    # a correction that re-publishes the same totals with votes moved between the parties: an empty batch with a
+    # non-zero margin change (an impossible batch)
+    for o in ops:
+        if o["k"] == "dup" and o["row"]["results_dem"] > 5 and st.feed.random() < 0.35:
+            kk = int(st.feed.integers(1, o["row"]["results_dem"]))
+            o["row"] = dict(o["row"], results_dem=o["row"]["results_dem"] - kk, results_gop=o["row"]["results_gop"] + kk)
+            o["entry_error"] = True
+            n_bad += 1
     fstats["entry_errors"] = n_bad
     return dict(kind="component", world=world, ops=ops, feed_stats=fstats, profile={})
 
